@@ -21,7 +21,8 @@ ARITH_RULE = ("programs generated from one PRNG (seed*1000+shard); an evaluation
 
 PROPS = {
     "C01": {
-        "gens": [{"name": "C01", "quick": 2500, "thorough": 12000}],
+        "gens": [{"name": "C01", "quick": 3000, "thorough": 12000}, {"name": "muldiv", "harness": "kernharness", "quick": 1500, "thorough": 6000}],
+        "needs": ["apiharness"],
         "nontrivial": {"inexact", "range"},
         "rule": ARITH_RULE + "non-trivial = the exact result is not representable (rounding happens) or leaves the exponent range",
         "level": "proof",
@@ -82,7 +83,8 @@ PROPS = {
                  "Mul Quo Add Sqrt FMA Cmp Text GobEncode Int on shared operands compared with the sequential result (support, not proof)"),
     },
     "C08": {
-        "gens": [{"name": "C08", "quick": 250, "thorough": 1500}],
+        "gens": [{"name": "C08", "quick": 250, "thorough": 1500}, {"name": "C12", "quick": 1500, "thorough": 6000}, {"name": "C17", "quick": 600, "thorough": 3000},
+                 {"name": "C20", "quick": 500, "thorough": 3000}, {"name": "setters", "quick": 400, "thorough": 2000}],
         "nontrivial": {"inexact", "range", "alias", "special"},
         "rule": ARITH_RULE + "every variable of every program state goes through the canonical-form monitor; non-trivial = step that rounds, leaves the range, aliases or involves a special value",
         "level": "proof",
@@ -104,7 +106,7 @@ PROPS = {
         "level": "proof",
     },
     "C05": {
-        "gens": [{"name": "C05", "quick": 2000, "thorough": 8000}],
+        "gens": [{"name": "C05", "quick": 5000, "thorough": 20000}],
         "nontrivial": {"inexact", "perfect-square", "special", "nan"},
         "rule": ARITH_RULE + "specification = Nat.sqrt of the scaled operand + sticky, rounded once; non-trivial = inexact root, perfect square, special operand or negative operand",
     },
